@@ -3,7 +3,9 @@ package main
 import (
 	"fmt"
 	"go/ast"
+	"go/token"
 	"go/types"
+	"golang.org/x/tools/go/types/typeutil"
 	"strings"
 
 	"golang.org/x/tools/go/ssa"
@@ -78,6 +80,217 @@ func runC07(c *Ctx) {
 	c.Min("total-fixed", 6)
 	c07Exhaustive(c)
 	c07Recorders(c, ge)
+	c07ProofRootOrder(c)
+}
+
+// c07ProofRootOrder: in a storage-proof Merkle path the proof hash at height i is the LEFT sibling exactly
+// when bit i of the leaf index is set or i is at/above the height of the ragged subtree
+// (bits.Len64(leafIndex ^ lastLeafIndex)). The v1 verifier decides this with one condition inside its loop;
+// the condition only compares (bit i, i vs subtreeHeight), so it is evaluated over all 6 orderings.
+func c07ProofRootOrder(c *Ctx) {
+	fd, info, ok := c.declOf("consensus.validateFileContracts")
+	if !ok {
+		c.Undecided("proof-root-order", "v1", "", "anchor does not resolve")
+		return
+	}
+	isSumPair := func(e ast.Expr) (*ast.CallExpr, bool) {
+		call, ok := stripParens(e).(*ast.CallExpr)
+		if !ok || len(call.Args) != 2 {
+			return nil, false
+		}
+		f, _ := typeutil.Callee(info, call).(*types.Func)
+		return call, f != nil && f.Name() == "SumPair" && f.Pkg() != nil && strings.HasSuffix(f.Pkg().Path(), "/blake2b")
+	}
+	found := false
+	ast.Inspect(fd.Body, func(n ast.Node) bool {
+		rs, ok := n.(*ast.RangeStmt)
+		if !ok || rs.Key == nil || rs.Value == nil {
+			return true
+		}
+		key, _ := rs.Key.(*ast.Ident)
+		val, _ := rs.Value.(*ast.Ident)
+		if key == nil || val == nil {
+			return true
+		}
+		// if cond { root = SumPair(a,b) } else { root = SumPair(b,a) }
+		for _, st := range rs.Body.List {
+			ifs, ok := st.(*ast.IfStmt)
+			if !ok || ifs.Else == nil || len(ifs.Body.List) != 1 {
+				continue
+			}
+			els, ok := ifs.Else.(*ast.BlockStmt)
+			if !ok || len(els.List) != 1 {
+				continue
+			}
+			order := func(s ast.Stmt) string { // "hash-left" when the proof hash is the first argument
+				as, ok := s.(*ast.AssignStmt)
+				if !ok || len(as.Rhs) != 1 {
+					return ""
+				}
+				call, ok := isSumPair(as.Rhs[0])
+				if !ok {
+					return ""
+				}
+				a0, _ := stripParens(call.Args[0]).(*ast.Ident)
+				a1, _ := stripParens(call.Args[1]).(*ast.Ident)
+				if a0 != nil && info.Uses[a0] == info.Defs[val] {
+					return "hash-left"
+				}
+				if a1 != nil && info.Uses[a1] == info.Defs[val] {
+					return "hash-right"
+				}
+				return ""
+			}
+			thenO, elseO := order(ifs.Body.List[0]), order(els.List[0])
+			if thenO == "" || elseO == "" || thenO == elseO {
+				continue
+			}
+			found = true
+			where := c.P.Pos(ifs.Pos())
+			// evaluate the condition on the 6 abstract cases
+			for _, bit := range []int{0, 1} {
+				for _, cmp := range []int{-1, 0, 1} {
+					ev := &bitCmpEval{info: info, idx: info.Defs[key], bit: bit, cmp: cmp}
+					res := ev.cond(ifs.Cond)
+					inst := fmt.Sprintf("v1:bit=%d,i%ssubtreeHeight", bit, map[int]string{-1: "<", 0: "=", 1: ">"}[cmp])
+					if len(ev.unsup) > 0 {
+						c.Undecided("proof-root-order", inst, where, "condition uses a construct outside (bit test of the leaf index at i, comparison of i with the subtree height): "+strings.Join(ev.unsup, "; "))
+						continue
+					}
+					got := elseO
+					if res {
+						got = thenO
+					}
+					want := "hash-right"
+					if bit == 1 || cmp >= 0 {
+						want = "hash-left"
+					}
+					c.Check(got == want, "proof-root-order", inst, where, ifElse(got == want, "proof hash is the "+strings.TrimPrefix(want, "hash-")+" sibling", "the proof hash is hashed as the "+strings.TrimPrefix(got, "hash-")+" sibling, but at this position it is the "+strings.TrimPrefix(want, "hash-")+" one: honest proofs of ragged files are rejected (or wrong leaves accepted)"))
+				}
+			}
+			// the threshold is the ragged-subtree height
+			if ev := (&bitCmpEval{info: info, idx: info.Defs[key]}); true {
+				ev.cond(ifs.Cond)
+				ok := ev.threshold != nil && isSubtreeHeight(info, fd, ev.threshold)
+				c.Check(ok, "proof-root-order", "v1:threshold", where, ifElse(ok, "i is compared with bits.Len64(leafIndex ^ lastLeafIndex(filesize))", "the loop index is not compared with bits.Len64(leafIndex ^ lastLeafIndex(filesize))"))
+			}
+		}
+		return true
+	})
+	if !found {
+		c.Undecided("proof-root-order", "v1", c.P.Pos(fd.Pos()), "no loop choosing between SumPair(h, root) and SumPair(root, h) found in validateFileContracts")
+	}
+	c.Min("proof-root-order", 7)
+}
+
+type bitCmpEval struct {
+	info      *types.Info
+	idx       types.Object
+	bit, cmp  int
+	unsup     []string
+	threshold ast.Expr
+}
+
+func (ev *bitCmpEval) isIdx(e ast.Expr) bool {
+	id, ok := stripParens(e).(*ast.Ident)
+	return ok && ev.info.Uses[id] == ev.idx
+}
+
+// bitTest: x&(1<<i) or (x>>i)&1
+func (ev *bitCmpEval) bitTest(e ast.Expr) bool {
+	be, ok := stripParens(e).(*ast.BinaryExpr)
+	if !ok || be.Op != token.AND {
+		return false
+	}
+	for _, side := range []ast.Expr{be.X, be.Y} {
+		if sh, ok := stripParens(side).(*ast.BinaryExpr); ok && (sh.Op == token.SHL || sh.Op == token.SHR) && ev.isIdx(sh.Y) {
+			return true
+		}
+	}
+	return false
+}
+
+func (ev *bitCmpEval) cond(e ast.Expr) bool {
+	e = stripParens(e)
+	switch x := e.(type) {
+	case *ast.UnaryExpr:
+		if x.Op == token.NOT {
+			return !ev.cond(x.X)
+		}
+	case *ast.BinaryExpr:
+		switch x.Op {
+		case token.LOR:
+			a, b := ev.cond(x.X), ev.cond(x.Y)
+			return a || b
+		case token.LAND:
+			a, b := ev.cond(x.X), ev.cond(x.Y)
+			return a && b
+		}
+		isZero := func(e ast.Expr) bool {
+			tv, ok := ev.info.Types[e]
+			return ok && tv.Value != nil && tv.Value.ExactString() == "0"
+		}
+		if ev.bitTest(x.X) && isZero(x.Y) {
+			switch x.Op {
+			case token.NEQ, token.GTR:
+				return ev.bit == 1
+			case token.EQL:
+				return ev.bit == 0
+			}
+		}
+		if ev.isIdx(x.X) || ev.isIdx(x.Y) {
+			s := ev.cmp
+			other := x.Y
+			if ev.isIdx(x.Y) {
+				s = -s
+				other = x.X
+			}
+			if !ev.isIdx(other) {
+				ev.threshold = other
+				if r, ok := cmpHolds(x.Op, s); ok {
+					return r
+				}
+			}
+		}
+	}
+	ev.unsup = append(ev.unsup, types.ExprString(e))
+	return false
+}
+
+// isSubtreeHeight: e is (a local defined as) bits.Len64(a ^ b)
+func isSubtreeHeight(info *types.Info, fd *ast.FuncDecl, e ast.Expr) bool {
+	isLenXor := func(x ast.Expr) bool {
+		call, ok := stripParens(x).(*ast.CallExpr)
+		if !ok || len(call.Args) != 1 {
+			return false
+		}
+		f, _ := typeutil.Callee(info, call).(*types.Func)
+		if f == nil || f.Pkg() == nil || f.Pkg().Path() != "math/bits" || f.Name() != "Len64" {
+			return false
+		}
+		be, ok := stripParens(call.Args[0]).(*ast.BinaryExpr)
+		return ok && be.Op == token.XOR
+	}
+	if isLenXor(e) {
+		return true
+	}
+	id, ok := stripParens(e).(*ast.Ident)
+	if !ok {
+		return false
+	}
+	obj := info.Uses[id]
+	res := false
+	ast.Inspect(fd.Body, func(n ast.Node) bool {
+		as, ok := n.(*ast.AssignStmt)
+		if !ok || len(as.Lhs) != 1 || len(as.Rhs) != 1 {
+			return true
+		}
+		if lid, ok := as.Lhs[0].(*ast.Ident); ok && (info.Defs[lid] == obj || info.Uses[lid] == obj) && isLenXor(as.Rhs[0]) {
+			res = true
+		}
+		return true
+	})
+	return res
 }
 
 // c07Exhaustive: every type switch over the resolution sum type (and over the policy sum type for
